@@ -116,6 +116,31 @@ Definition x_pol_spec_g (fx : bool) (x : sx) : sx :=
       L [I 0; of_dist2 d]
   end.
 
+(* one long-lived PolarizationSimulator.  ops: [0, tree] = set_circuit, [1, input] = probs / evolve on that input.
+   answer per op: [9] for set_circuit, [2] for a query that raises (no circuit, conversion ValueError),
+   else [0, merged distribution, [[t, amp_num, norm2] ...], mass] as x_pol_probs *)
+Definition to_pop (x : sx) : pop Q2 :=
+  match to_Z (nthx 0 x) with
+  | 0%Z => OpSet (to_tree (nthx 1 x))
+  | _ => let inp := to_pinput (nthx 1 x) in
+         OpQuery inp (allstates (2 * length inp) (fold_right (fun vs acc => (length vs + acc)%nat) 0%nat inp))
+  end.
+Definition session_report (o : pop Q2) (a : option (list q2)) : sx :=
+  match o, a with
+  | OpSet _, _ => L [I 9]
+  | OpQuery _ _, None => L [I 2]
+  | OpQuery inp ts, Some amps =>
+      let s := spatial_input (prep_states (R:=Q2) q2_eqb inp) in
+      let rows := combine ts amps in
+      let d := dmerge2 (map (fun ta => (merge_sub (fst ta), prob2 (snd ta) (norm2 s (fst ta)))) rows) in
+      L [I 0; of_dist2 d;
+         L (map (fun ta => L [of_state (fst ta); of_q2 (snd ta); of_nat_sx (norm2 s (fst ta))]) rows);
+         of_p2 (mass2 d)]
+  end.
+Definition x_pol_session (x : sx) : sx :=
+  let h := map to_pop (to_list x) in
+  L (map (fun oa => session_report (fst oa) (snd oa)) (combine h (prun (R:=Q2) q2_eqb psim0 h))).
+
 Definition all_labels : list label := [LH; LV; LD; LA; LR; LL].
 (* () -> for H V D A R L: [a, b, jones_label, jones_standard] *)
 Definition x_labels (_ : sx) : sx :=
